@@ -26,6 +26,7 @@ type Solver struct {
 	nsat, nunsat, nunk int
 	elapsed time.Duration
 	log     io.Writer
+	enumSeq int
 }
 
 func NewSolver(bin string, timeoutMs int) (*Solver, error) {
